@@ -841,6 +841,24 @@ type GenericTypeFloat interface {
 	float32 | float64
 }
 
+// headerValue returns val with every control byte other than a horizontal tab replaced by a blank: a header
+// field value contains none (RFC 9110 section 5.5) and strict clients reject the whole response otherwise.
+// fasthttp replaces only CR and LF, and only in Set/Add. A value without control bytes is returned as is.
+func headerValue(val string) string {
+	for i := 0; i < len(val); i++ {
+		if (val[i] < 0x20 && val[i] != '\t') || val[i] == 0x7f {
+			b := []byte(val)
+			for j := i; j < len(b); j++ {
+				if (b[j] < 0x20 && b[j] != '\t') || b[j] == 0x7f {
+					b[j] = ' '
+				}
+			}
+			return string(b)
+		}
+	}
+	return val
+}
+
 // containsCRLF reports whether s contains a carriage return or a line feed.
 func containsCRLF(s string) bool {
 	for i := 0; i < len(s); i++ {
